@@ -23,6 +23,7 @@ import (
 func init() {
 	register(&Monitor{ID: "C04", Run: runC04, Self: selfC04})
 	Aux["stackprobe"] = auxStackProbe
+	Aux["deepdoc"] = auxDeepDoc
 	Aux["parsefile"] = auxParseFile
 }
 
@@ -614,6 +615,48 @@ func runC04(c *fw.Ctx) {
 			c.Violate("parsefile-differs-from-parseobject", "ParseFile("+quoteBytes(path)+"); os.ReadFile of that path gives "+quoteBytes(string(want)), fmt.Sprintf("ParseObject: err=%q tree=%s", oo.Err, spec.Trunc(oo.Canon, 300)), fmt.Sprintf("ParseFile: err=%q tree=%s", of.Err, spec.Trunc(of.Canon, 300)))
 		}
 	})
+	// relative paths after the working directory has changed: the path means what it means to os.ReadFile at the moment of
+	// the call (the working directory is put back right after each call; cases run one after the other)
+	type chd struct{ dir, rel string }
+	var moved []chd
+	for _, d := range []string{"other", "real/deep", "q/link", "real"} {
+		for _, rel := range []string{"t.json", "./t.json", "../real/t.json", "../t.json", "deep/t.json", "../other/../real/alias.json", "missing.json"} {
+			moved = append(moved, chd{filepath.Join(pf, d), rel})
+		}
+	}
+	c.Cases("after-chdir", len(moved), true, func(i int, r *rng.R) {
+		wd, err := os.Getwd()
+		if err != nil || !filepath.IsAbs(pf) {
+			c.Count("chdir_not_available")
+			return
+		}
+		m := moved[i]
+		if err := os.Chdir(m.dir); err != nil {
+			c.Count("chdir_not_available")
+			return
+		}
+		want, rerr := os.ReadFile(m.rel)
+		of := doParseFile(m.rel)
+		if err := os.Chdir(wd); err != nil {
+			panic("cannot return to the working directory: " + err.Error())
+		}
+		in := "ParseFile(" + quoteBytes(m.rel) + ") after os.Chdir(" + quoteBytes(m.dir) + ") (the process started in " + quoteBytes(wd) + ")"
+		c.Distinct("chdir " + m.dir + " " + m.rel)
+		c.Count("pathform_calls")
+		if !checkOutcome(c, "ParseFile", in, of) {
+			return
+		}
+		if rerr != nil {
+			if of.NilE {
+				c.Violate("parsefile-unreadable-path-accepted", in+", which os.ReadFile cannot read: "+rerr.Error(), "error", "accepted as "+spec.Trunc(of.Canon, 200))
+			}
+			return
+		}
+		oo := doParseObject(string(want))
+		if !sameOutcome(of, oo) {
+			c.Violate("parsefile-differs-from-parseobject", in+"; os.ReadFile of that path gives "+quoteBytes(string(want)), fmt.Sprintf("ParseObject: err=%q tree=%s", oo.Err, spec.Trunc(oo.Canon, 300)), fmt.Sprintf("ParseFile: err=%q tree=%s", of.Err, spec.Trunc(of.Canon, 300)))
+		}
+	})
 	// a path whose size as reported by Stat is not what reading it delivers: a named pipe fed by a writer
 	c.Cases("fifo", c.N(3, 20), true, func(i int, r0 *rng.R) {
 		doc := []string{`{"from":"a pipe","n":[1,2,3]}`, "{\"big\":\"" + strings.Repeat("x", 70000) + "\"}", `{"broken":`}[i%3]
@@ -794,6 +837,52 @@ func runC04(c *fw.Ctx) {
 		}
 		c.Inconclusive("stack probe ended unexpectedly: " + spec.Trunc(s, 300))
 	})
+	// the other side of that finding: a complete document of 200 000 levels needs about 50 MB of goroutine stack on the
+	// unchanged tree, a twentieth of the default limit. It is parsed in a child with the default limit and must be accepted;
+	// dying there is another input than the one the known finding names.
+	c.Cases("deepdoc", 2, true, func(i int, r *rng.R) {
+		if c.Arch386 {
+			return
+		}
+		self, err := os.Executable()
+		if err != nil {
+			return
+		}
+		kind := []string{"list", "object"}[i]
+		cmd := exec.Command(self, "-aux", "deepdoc", kind)
+		out, _ := cmd.CombinedOutput()
+		s := string(out)
+		c.Count("deepdoc_runs")
+		c.Distinct("deepdoc " + kind)
+		in := fmt.Sprintf("a complete %s document nested 200000 levels deep, default goroutine stack limit", kind)
+		switch {
+		case strings.Contains(s, "DEEPDOC accepted"):
+		case strings.Contains(s, "DEEPDOC rejected"):
+			c.Violate("deep-valid-document-rejected", in, "accepted", firstLine(s[strings.Index(s, "DEEPDOC rejected"):]))
+		case strings.Contains(s, "stack overflow") || strings.Contains(s, "stack exceeds"):
+			c.Violate("stack-overflow-at-200000-levels", in, "a container (the unchanged parser needs about 256 bytes of stack per level, 50 MB here)", "fatal error: stack overflow (not recoverable)")
+		default:
+			c.Inconclusive("deep document probe ended unexpectedly: " + spec.Trunc(s, 300))
+		}
+	})
+}
+
+func auxDeepDoc(args []string) int {
+	n := 200000
+	var err error
+	if len(args) > 0 && args[0] == "object" {
+		fmt.Println("DEEPDOC start object", n)
+		_, err = at.ParseObject(strings.Repeat("{\"a\":", n) + "1" + strings.Repeat("}", n))
+	} else {
+		fmt.Println("DEEPDOC start list", n)
+		_, err = at.ParseList(strings.Repeat("[", n) + strings.Repeat("]", n))
+	}
+	if err != nil {
+		fmt.Println("DEEPDOC rejected", err)
+		return 0
+	}
+	fmt.Println("DEEPDOC accepted")
+	return 0
 }
 
 // genBracketyTree: trees whose strings and keys are made of the characters that steer the parser's state machine
